@@ -147,6 +147,9 @@ def _writer_sets(repo):
     out += S.check_caller_set(repo, "try_set_result", "try_set_result",
                               ["map.MapFuture._on_mapped", "poll.PollDescriptor.yield_result", "futures.bool.BoolOperation.handle_done",
                                "futures.zip.Zipper.handle_done", "retry.copy_future"], ["C13", "C02", "C01", "C08", "C14", "C15"])
+    # the throttle's slot counter: taken by the hand-over scan only, given back by the delegate future's completion callback only
+    out += S.check_caller_set(repo, "AtomicInt.incr", "incr", ["throttle._submit_loop_iter"], ["C07"])
+    out += S.check_caller_set(repo, "AtomicInt.decr", "decr", ["throttle.ThrottleExecutor._delegate_future_done"], ["C07", "C03"])
     out += S.check_caller_set(repo, "copy_future_exception", "copy_future_exception",
                               ["map.MapFuture._delegate_failed", "poll.PollFuture._delegate_resolved", "retry.copy_future",
                                "futures.bool.BoolOperation.handle_done", "futures.zip.Zipper.handle_done"],
@@ -323,6 +326,11 @@ def _lock_order(repo):
             if nm not in FOLLOW_STOP:
                 for callee in by_name.get(nm, []):
                     targets |= may[callee]
+            elif nm in ("cancel", "add_done_callback", "set_result", "set_exception", "set_exception_info") and isinstance(node.func, _ast.Attribute) \
+                    and not (isinstance(node.func.value, _ast.Call) and getattr(node.func.value.func, "id", None) == "super"):
+                # the receiver may be a library future: these methods take its _me_lock (and run user callbacks after releasing it).
+                # A library lock held around such a call is therefore ordered BEFORE every future lock.
+                targets.add(("future", "_me_lock"))
             for h in held:
                 src = _lock_id(f, h)
                 for tgt in targets:
